@@ -272,8 +272,9 @@ Avail(size, off, lim) ==
 (***************************************************************************)
 (* READ_FILE (HandleReadFile): announce n = min(limit, size - off), then n  *)
 (* bytes.  No file open: the connection is ended without a reply (or a      *)
-(* non-positive count is announced).  Offsets >= 2^63 and limits >= 2^31:   *)
-(* unspecified, but still at most one well-formed reply.                    *)
+(* non-positive count is announced).  Every 64-bit offset has an answer     *)
+(* (past the end: zero bytes); limits >= 2^31 (hugeArgs) are unspecified,   *)
+(* but still get at most one well-formed reply.                             *)
 (***************************************************************************)
 HandleReadFile(cs, fsys, req) ==
   LET ro == RoView(cs, fsys) IN
